@@ -126,3 +126,32 @@ Definition n_chain_root (w : bytes) : outcome bytes :=
 Definition unc_chain (left_absolute : bool) (lw rw : bytes) : outcome bytes :=
   do _ <- chain_new_uncertain (negb left_absolute) (length lw) (length rw);
   Ok (if left_absolute then lw else lw ++ rw).
+
+(* a chain of three parts: (a.chain(b))?.chain(c)?, lengths as compose_len *)
+Definition chain3 (l1 l2 l3 : nat) : outcome unit :=
+  do _ <- chain_new l1 l2; chain_new (l1 + l2) l3.
+
+(* NameBuilder::from_builder: RelativeName::check_slice on what is in the
+   octets builder, then a builder with no label open *)
+Definition b_from_builder (w : bytes) : outcome bstate :=
+  do _ <- check_rel w; Ok (mk_b w None).
+
+(* ---- Name::parse on a parser: parse_name_len walks the labels from the
+   current position to the root label, then tests the length; the octets of the
+   name are taken, the rest stays in the parser *)
+Fixpoint nparse_loop (fuel : nat) (tmp : bytes) (consumed : nat) : outcome nat :=
+  match fuel with
+  | O => OutOfFuel
+  | S f =>
+      if is_empty tmp then Err W_ShortInput else
+      match split_from tmp with
+      | Ok (l, tail) =>
+          let c := (consumed + length l + 1)%nat in
+          if is_root l then Ok c else nparse_loop f tail c
+      | Err e => Err e | Panic p => Panic p | OutOfFuel => OutOfFuel
+      end
+  end.
+
+Definition name_parse (b : bytes) : outcome bytes :=
+  do len <- nparse_loop (S (length b)) b 0;
+  if exceeds name_parse_ge len name_parse_lim then Err W_LongName else Ok (firstn len b).
